@@ -42,7 +42,7 @@ PLAN = {
         "level_note": "Trusted: pyvc encoder; parsing and segmentation independence are h11/h2's (assumed contracts); queue FIFO.",
     },
     "C02": {
-        "units": [UT + "suppress_body", UT + "build_and_validate_headers", HS + "app_send", HP + "stream_send", HP + "_send_data", HP + "_flush", H1P + "stream_send"] + [SB + m for m in ("push", "pop", "set_complete", "complete")],
+        "units": [UT + "suppress_body", UT + "build_and_validate_headers", HS + "app_send", HP + "stream_send", HP + "_send_data", HP + "_flush", HP + "_window_updated", H1P + "stream_send"] + [SB + m for m in ("push", "pop", "set_complete", "complete")],
         "trusted_base": LIB_H2 + LIB_RT,
         "assumptions": COMMON_ASSUME + STREAM_ASSUME + ["serialisation and framing legality are h11/h2's"],
         "explanation": "response automaton as preconditions of the stream's send callback (one final head, body after head, one end), suppression rule, buffer FIFO",
